@@ -22,6 +22,7 @@ type faultSink struct {
 	buf     []byte
 	call    int
 	failAt  int
+	failAt2 int // second once-failure (0: none; always > failAt)
 	forever bool
 	half    bool
 	failed  bool
@@ -32,7 +33,7 @@ func (s *faultSink) fail(k int) bool {
 	if s.failAt < 0 {
 		return false
 	}
-	return k == s.failAt || (s.forever && k > s.failAt)
+	return k == s.failAt || (s.forever && k > s.failAt) || (s.failAt2 > 0 && k == s.failAt2)
 }
 
 func (s *faultSink) Write(p []byte) (int, error) {
@@ -73,6 +74,7 @@ type C09W struct {
 	FailAt  int
 	Forever bool
 	Half    bool
+	FailAt2 int `json:",omitempty"` // deviation bound 2: a second sink call that fails once (index in the run with the first fault)
 }
 
 type C09R struct {
@@ -82,6 +84,7 @@ type C09R struct {
 	WithData bool
 	Buf      int
 	Single   bool `json:",omitempty"` // xz reader with SingleStream set (it probes for a following byte)
+	Once     bool `json:",omitempty"` // the source fails once at the offset and answers normally afterwards (transient failure)
 }
 
 func init() {
@@ -120,8 +123,10 @@ type c09Run struct {
 
 func c09Input(writer string) []byte {
 	switch writer {
-	case "xzW":
+	case "xzW", "xzW-crc64", "xzW-sha256", "xzW-none":
 		return append(append([]byte(nil), baseText[:100]...), randBytes(4, 80)...)
+	case "lzmaW-size-eos":
+		return append(randBytes(7, 5000), textBytes(3, 2000)...)
 	case "lzma2W":
 		return append(append([]byte(nil), baseText[:90]...), randBytes(6, 70)...)
 	case "lzmaW-bufio":
@@ -145,7 +150,7 @@ func c09Hist(p C09W) c09Run {
 	parts := strings.Split(p.Writer, "|")
 	kind, ops := parts[1], strings.Split(parts[2], ",")
 	res := c09Run{failCall: -1}
-	fs := &faultSink{failAt: p.FailAt, forever: p.Forever, half: p.Half}
+	fs := &faultSink{failAt: p.FailAt, failAt2: p.FailAt2, forever: p.Forever, half: p.Half}
 	rec := func(call string, n, l int, err error) {
 		if fs.failed && res.failCall < 0 {
 			res.failCall = len(res.calls)
@@ -220,10 +225,10 @@ func c09Writer(r *core.Run, p C09W) c09Run {
 	var fs *faultSink
 	var sink io.Writer
 	if p.Writer == "lzmaW-bytewriter" {
-		bs := &faultByteSink{faultSink{failAt: p.FailAt, forever: p.Forever, half: p.Half}}
+		bs := &faultByteSink{faultSink{failAt: p.FailAt, failAt2: p.FailAt2, forever: p.Forever, half: p.Half}}
 		fs, sink = &bs.faultSink, bs
 	} else {
-		fs = &faultSink{failAt: p.FailAt, forever: p.Forever, half: p.Half}
+		fs = &faultSink{failAt: p.FailAt, failAt2: p.FailAt2, forever: p.Forever, half: p.Half}
 		sink = fs
 	}
 	res.failCall = -1
@@ -236,9 +241,18 @@ func c09Writer(r *core.Run, p C09W) c09Run {
 	h := len(in) / 2
 	res.pan = core.Guard(func() {
 		switch p.Writer {
-		case "xzW":
+		case "xzW", "xzW-crc64", "xzW-sha256", "xzW-none":
 			res.fmt = "xz"
-			w, err := xz.WriterConfig{DictCap: 4096, BlockSize: 60, CheckSum: xz.CRC32}.NewWriter(sink)
+			cfg := xz.WriterConfig{DictCap: 4096, BlockSize: 60, CheckSum: xz.CRC32}
+			switch p.Writer {
+			case "xzW-crc64":
+				cfg.CheckSum = xz.CRC64
+			case "xzW-sha256":
+				cfg.CheckSum = xz.SHA256
+			case "xzW-none":
+				cfg.CheckSum, cfg.NoCheckSum = 0, true
+			}
+			w, err := cfg.NewWriter(sink)
 			rec("NewWriter", 0, 0, err)
 			if err != nil {
 				return
@@ -320,7 +334,11 @@ func c09Writer(r *core.Run, p C09W) c09Run {
 			rec("Close2", 0, 0, w.Close())
 		default:
 			res.fmt = "lzma"
-			w, err := lzma.WriterConfig{DictCap: 4096}.NewWriter(sink)
+			lc := lzma.WriterConfig{DictCap: 4096}
+			if p.Writer == "lzmaW-size-eos" {
+				lc.SizeInHeader, lc.Size, lc.EOSMarker = true, int64(len(in)), true
+			}
+			w, err := lc.NewWriter(sink)
 			rec("NewWriter", 0, 0, err)
 			if err != nil {
 				return
@@ -370,6 +388,9 @@ func c09WriterJudge(r *core.Run, p C09W, base c09Run) {
 	}
 	if p.Half {
 		mode += "+partial"
+	}
+	if p.FailAt2 > 0 {
+		mode += "+second-fault"
 	}
 	wname := p.Writer
 	if strings.HasPrefix(wname, "H|") {
@@ -429,11 +450,21 @@ type faultSrc struct {
 	failAt   int
 	withData bool
 	hit      bool
+	once     bool
 }
 
 func (s *faultSrc) Read(p []byte) (int, error) {
 	if len(p) == 0 {
 		return 0, nil
+	}
+	if s.once && s.hit {
+		// transient failure: after the one failed call the source answers normally
+		if s.pos >= len(s.data) {
+			return 0, io.EOF
+		}
+		n := copy(p, s.data[s.pos:])
+		s.pos += n
+		return n, nil
 	}
 	if s.pos >= s.failAt {
 		s.hit = true
@@ -454,7 +485,7 @@ func (s *faultSrc) Read(p []byte) (int, error) {
 
 func c09Reader(r *core.Run, s Stream, p C09R) {
 	cs := core.MkCase("C09", "reader", p)
-	src := &faultSrc{data: s.Data, failAt: p.FailAt, withData: p.WithData}
+	src := &faultSrc{data: s.Data, failAt: p.FailAt, withData: p.WithData, once: p.Once}
 	var out []byte
 	var err error
 	var proto string
@@ -477,6 +508,9 @@ func c09Reader(r *core.Run, s Stream, p C09R) {
 		if p.FailAt == len(s.Data) {
 			site = "xzR(SingleStream) source-fail@after-the-stream"
 		}
+	}
+	if p.Once {
+		site += " (transient)"
 	}
 	cls := errClass(err)
 	switch {
@@ -514,7 +548,7 @@ func runC09(r *core.Run) {
 	if thorough(r) {
 		level = 1
 	}
-	r.Rule = "writers (xz multi-block, LZMA2 with Flush, classic LZMA through bufio and through io.ByteWriter) with history Write,Write,[Flush],Close,Close: EVERY index k of the sink's Write/WriteByte calls of the fault-free run x {once, forever} x {0 accepted, half accepted}; plus LZMA2 raw chunks across the ring-buffer wrap, one Write spanning blocks, a Write that fills a 2 MiB chunk exactly; readers (all formats, the xz reader also with SingleStream): EVERY source offset k fails persistently x {error alone, error with the last bytes} x caller buffer {1,4096}. non-trivial = distinct (subject, outcome class, call-result history / bytes delivered)"
+	r.Rule = "writers (xz multi-block, LZMA2 with Flush, classic LZMA through bufio and through io.ByteWriter) with history Write,Write,[Flush],Close,Close: EVERY index k of the sink's Write/WriteByte calls of the fault-free run x {once, forever} x {0 accepted, half accepted}; plus LZMA2 raw chunks across the ring-buffer wrap, one Write spanning blocks, a Write that fills a 2 MiB chunk exactly; readers (all formats, the xz reader also with SingleStream): EVERY source offset k fails {persistently, once (transient)} x {error alone, error with the last bytes} x caller buffer {1,4096}; deviation bound 2 for sinks: every pair k1<k2 of once-failing sink calls on the short writer histories. non-trivial = distinct (subject, outcome class, call-result history / bytes delivered)"
 	type job struct {
 		w    *C09W
 		base *c09Run
@@ -522,7 +556,8 @@ func runC09(r *core.Run) {
 		rd   *C09R
 	}
 	var jobs []job
-	for _, wn := range []string{"xzW", "lzma2W", "lzmaW-bufio", "lzmaW-bytewriter", "lzma2W-wrap", "xzW-blockspan", "lzma2W-fullchunk", "xzW-fullchunk"} {
+	ndouble := 0
+	for _, wn := range []string{"xzW", "lzma2W", "lzmaW-bufio", "lzmaW-bytewriter", "lzma2W-wrap", "xzW-blockspan", "lzma2W-fullchunk", "xzW-fullchunk", "xzW-crc64", "xzW-sha256", "xzW-none", "lzmaW-size-eos"} {
 		base := c09Writer(r, C09W{Writer: wn, FailAt: -1})
 		if base.pan != nil || base.failed {
 			panic("C09: fault-free run failed")
@@ -610,6 +645,9 @@ func runC09(r *core.Run) {
 					continue
 				}
 				jobs = append(jobs, job{s: s, rd: &C09R{Stream: s.Name, Level: -2, FailAt: k, WithData: wd, Buf: 16384}})
+				if !wd {
+					jobs = append(jobs, job{s: s, rd: &C09R{Stream: s.Name, Level: -2, FailAt: k, Buf: 16384, Once: true}})
+				}
 			}
 		}
 	}
@@ -622,6 +660,11 @@ func runC09(r *core.Run) {
 				}
 				for _, b := range []int{1, 4096} {
 					jobs = append(jobs, job{s: s, rd: &C09R{Stream: s.Name, Level: level, FailAt: k, WithData: wd, Buf: b}})
+					if !wd {
+						// transient failures only as a bare (0, err) answer: an error that accompanies the
+						// last requested bytes is dropped by io.ReadFull by its documented contract
+						jobs = append(jobs, job{s: s, rd: &C09R{Stream: s.Name, Level: level, FailAt: k, Buf: b, Once: true}})
+					}
 					if s.Fmt == "xz" && s.ValidCuts == nil {
 						jobs = append(jobs, job{s: s, rd: &C09R{Stream: s.Name, Level: level, FailAt: k, WithData: wd, Buf: b, Single: true}})
 					}
@@ -630,6 +673,7 @@ func runC09(r *core.Run) {
 		}
 	}
 	r.Extra("fault_points", len(jobs))
+	r.Extra("double_sink_fault_pairs", ndouble)
 	r.Sample(C09W{Writer: "xzW", FailAt: 6, Forever: false, Half: true})
 	r.Sample(C09R{Stream: streams[0].Name, FailAt: 40, WithData: true, Buf: 1})
 	r.Parallel(len(jobs), "fault points", func(i int) {
